@@ -28,7 +28,7 @@ ASSUMPTIONS = ["N_l = 0 with V_l > 0 counts as infinite variance; V_l = 0 contri
                "the boundary are not judged",
                "runs with worker processes: the samples are counted where they reach the statistics in the parent process"]
 REQUIRED_COUNTERS = ["allocation_checks", "bias_tolerance_measurements", "stopping_test_evaluations", "stopping_test_on_fewer-than-three_levels",
-                     "run_stopping_tests_rechecked", "runs_with_worker_processes", "stopping_tests_with_given_rates", "maximum_level_given_as_a_float", "runs", "criteria_calls_observed", "allocation_calls_observed",
+                     "run_stopping_tests_rechecked", "runs_with_worker_processes", "stopping_tests_with_given_rates", "maximum_level_given_as_a_float", "runs_on_an_engine_that_priced_before", "runs", "criteria_calls_observed", "allocation_calls_observed",
                      "runs_stopped_by_criteria", "runs_stopped_at_maximum_level", "default_configuration_histories"]
 MIN_NONTRIVIAL = {"quick": 300, "thorough": 6000}
 SHARD_TIMEOUT = {"quick": 900, "thorough": 7200}
@@ -307,9 +307,27 @@ def _run(case, R):
         written[int(level)] = written.get(int(level), 0) + 1
         return orig_add(self_, simulation, level, path_manager)
 
+    eng = Engine(conf, cp)
+    base_events, base_total = 0, 0
+    if case["seed"] % 4 == 0 and workers == 1:
+        # the engine object has priced before (a looser and a tighter target in turn): the run judged below is its third pricing
+        try:
+            for f_ in (3.0, 0.6):
+                eng.price(product, rmse * f_)
+        except BudgetExceeded:
+            R.skip("sample-budget-exceeded (bounded termination not decided)")
+            return
+        except Exception as exc:  # noqa: BLE001
+            R.violation("engine-raises-when-priced-again", f"multilevel Engine.price raises {type(exc).__name__}: {exc}", wit)
+            return
+        R.hit("runs_on_an_engine_that_priced_before")
+        base_events, base_total = len(cp.log.events), cp.counters.total()
+        cp.budget += base_total
+        calls.clear()
+        written.clear()
     MLMCStatistics.add = add
     try:
-        st = Engine(conf, cp).price(product, rmse)
+        st = eng.price(product, rmse)
     except BudgetExceeded:
         R.skip("sample-budget-exceeded (bounded termination not decided)")
         return
@@ -323,9 +341,9 @@ def _run(case, R):
         R.hit("runs_with_worker_processes")
         levels = sorted(written)
     else:
-        levels = [e[1] for e in cp.log.events if e[0] == "sample"]
-        if n_written() != cp.counters.total():
-            R.violation("samples-simulated-but-not-stored", f"{cp.counters.total()} samples simulated, {n_written()} handed to the statistics", wit)
+        levels = [e[1] for e in cp.log.events[base_events:] if e[0] == "sample"]
+        if n_written() != cp.counters.total() - base_total:
+            R.violation("samples-simulated-but-not-stored", f"{cp.counters.total() - base_total} samples simulated, {n_written()} handed to the statistics", wit)
     if not levels:
         R.violation("returned-without-a-sample", f"price() returned without simulating any sample (initial_mc_paths = {N0}), no stopping test, "
                     f"level {len(st.mc_statistics) - 1} < maximum_level = {Lmax}", wit)
